@@ -188,7 +188,7 @@ class Executor:
         if k == "set_gitignore":
             return w.op_set_gitignore(op["patterns"], op.get("where", ""))
         if k == "set_cli":
-            w.cli_excludes = list(op["patterns"])
+            w.cli_excludes = w._encodable(list(op["patterns"]))
             return {}
         if k == "set_git":
             w.git = op["scenario"]
